@@ -13,8 +13,8 @@ import (
 
 // simsql is an in-memory database/sql driver that understands exactly the six statements of
 // simDialect. It is a stub of "a conforming database": rows of one table (name, date, open,
-// high, low, close, volume); GETSINCE returns the rows of an asset dated on or after the bound,
-// ordered by date; LASTDATE returns the greatest date of an asset (no row if it has none).
+// high, low, close, volume); GETSINCE returns the rows of an asset dated on or after the bound
+// in insertion order; LASTDATE returns the date of the asset's last inserted row (no row if none).
 // The code under test is the real SQLRepository and the real database/sql.
 
 type simDialect struct{}
@@ -159,7 +159,10 @@ func (s *simStmt) Query(args []driver.Value) (driver.Rows, error) {
 			}
 			sel = append(sel, r)
 		}
-		sort.SliceStable(sel, func(i, j int) bool { return sel[i].date.Before(sel[j].date) })
+		// rows come back in insertion order and LASTDATE is the date of the asset's last inserted
+		// row: the property specifies the repository as "the ordered list of snapshots appended so
+		// far", which a conforming database has to reproduce also for histories that are not in
+		// date order
 		if s.q == "LASTDATE" {
 			out := &simRows{cols: []string{"date"}}
 			if len(sel) > 0 {
